@@ -26,7 +26,11 @@ POOL = [0, 1, -1, 2, -2, 3, 7, 2**31 - 1, 2**31, -2**31, -2**31 + 1, -2**31 - 1,
         2**62, 2**63 - 1, 2**63, -2**63, 2**64, 10**9, 10**18 + 9]
 FRACS = ["1/2", "-1/2", "1/3", "2/3", "-7/2", "4/6", "-6/4", "2147483647/2", "1/2147483647", "1/4294967295", "4294967296/3",
          "1/4294967296", "2147483648/2147483647", "-2147483648/3", "9223372036854775807/9223372036854775806", "3/18446744073709551616",
-         "4294967295/4294967294", "65536/65537", "6/3", "0/5"]
+         "4294967295/4294967294", "65536/65537", "6/3", "0/5",
+         # denominators between 2^31 and 2^32 (they fit the unsigned word but not the signed one), both signs of the numerator
+         "-1/4294967295", "-3/4294967293", "7/4294967295", "-7/2147483649", "5/2147483649", "2147483647/2147483649", "-2147483647/4294967291",
+         # small numerator over a denominator of 33 to 64 bits
+         "1/100000000000", "3/40000000000", "-1/4294967297", "1/18446744073709551615"]
 
 class Conv:
     def __init__(self):
@@ -71,7 +75,7 @@ def b_rat(job):
     nid = 0
     stats = {"ops": 0, "mpq_results": 0, "word_results": 0, "back_to_word": 0}
     try:
-        lits = [str(v) for v in rng.sample(POOL, 12)] + rng.sample(FRACS, 8)
+        lits = [str(v) for v in rng.sample(POOL, 12)] + rng.sample(FRACS, 12)
         for s in lits:
             nid += 1
             o = cv.ask("lit %d %s" % (nid, s))
